@@ -77,7 +77,9 @@ BodyEnds(bd) == CASE bd = "raise" -> "fe" [] bd = "braise" -> "fb" [] OTHER -> "
 
 FinPre == IF "FINPRE" \in DOMAIN IOEnv THEN IOEnv.FINPRE ELSE "*"  \* "2": self-finishing bodies only with 2 requests already made
 Only == IF "ONLY" \in DOMAIN IOEnv THEN IOEnv.ONLY ELSE "*"      \* "<kind>/<body>" restricts a run to one configuration
-Init == /\ \E kb \in ({"own"} \X Bodies) \cup {<<"debug", "all">>} :
+\* debug/new: the built-in DebugBatch, with a follow-up request issued from the completion callback of its first item
+\* (so: while the batch is being flushed, and only if it has an item)
+Init == /\ \E kb \in ({"own"} \X Bodies) \cup {<<"debug", "all">>, <<"debug", "new">>} :
              kind = kb[1] /\ body = kb[2] /\ (Only = "*" \/ Only = kb[1] \o "/" \o kb[2])
         /\ pre \in (IF body \in FinBodies /\ FinPre = "2" THEN {2} ELSE {0, 2})
         /\ st = <<"pending">> /\ out = <<"none">> /\ items = << [j \in 1..pre |-> Unset] >> /\ runs = <<0>> /\ active = 1
@@ -153,7 +155,7 @@ FlushBody ==
                 /\ log' = log \o ann \o fann \o << [k |-> "batch", b |-> b, i |-> 0] >>
                 /\ st' = [st EXCEPT ![b] = FinSt(body)] /\ out' = [out EXCEPT ![b] = fe]
                 /\ cur' = [cur EXCEPT !.stage = "end"]
-           ELSE /\ IF body = "new"
+           ELSE /\ IF body = "new" /\ (kind = "own" \/ n >= 1)
                    THEN /\ items' = [[items EXCEPT ![active] = Append(@, Unset)] EXCEPT ![b] = mine]
                         /\ cur' = [cur EXCEPT !.stage = "end", !.mb = active, !.mi = Len(items[active]) + 1]
                    ELSE /\ items' = [items EXCEPT ![b] = mine]
